@@ -171,6 +171,20 @@ def check(run: Run):
         if r != 1:
             key, what = describe(e)
             run.violation(key, what, {"event": e})
+    # QCSchema molecule documents: every key subset class -> where the loader puts each value (spec/QCSchema.tla)
+    from .. import qcdoc
+    cfgq = "MC_QCSchema_thorough.cfg" if run.thorough() else "MC_QCSchema_quick.cfg"
+    run.add_model(run_tlc(run, "QCSchema", cfgq, workers=16, timeout=900, tag=cfgq[:-4]))
+    qev = pmap(qcdoc.execute, qcdoc.plan(rng, run.thorough()), chunksize=4)
+    qreached = validate_traces(run, "Trace_QCSchema", [[e] for e in qev], chunk=3000, env={"QC_RULE": "load"})
+    for e, r in zip(qev, qreached):
+        run.count()
+        run.distinct("qcdoc:" + json.dumps(e["keys"]))
+        if r != 1:
+            badp = sorted(f"{k}:{v}" for k, v in e["placed"].items() if v in ("missing", "wrong"))
+            run.violation(f"json_qcschema document: out={e['out']} warned={e['warned']} misplaced={' '.join(badp) or 'none'}"[:160],
+                          json.dumps(e)[:1500], {"event": e})
+    run.notes["qcschema_documents"] = len(qev)
     run.notes["formats"] = sorted(WRITERS)
     run.notes["models_not_fitting_columns"] = len(skipped)
     run.notes["not_covered"] = ("cp2klog has no rendered counterpart (its sections are rendered for gaussianlog, orcalog, gamess punch and "
